@@ -174,7 +174,7 @@ AXES = [
     ("omit_start", [("hit", ax_omit("hit", "StartTime")), ("hold", ax_omit("hold", "StartTime")), ("tp", ax_omit("tp", "StartTime")), ("sv", ax_omit("sv", "StartTime"))]),
     ("omit_value", [("bpm", ax_omit("tp2", "Bpm")), ("multiplier", ax_omit("sv2", "Multiplier"))]),
     ("keysounds", [("omitted", ax_omit("hit", "KeySounds")), ("one", ax_keysounds([dict(Sample=1, Volume=80)])), ("hold-omitted", ax_omit("hold", "KeySounds"))]),
-    ("svs", [("empty", ax_svs([])), ("absent", ax_svs(None)), ("two", ax_svs([dict(StartTime=100, Multiplier=2.0), dict(StartTime=100.5, Multiplier=-1.25)]))]),
+    ("svs", [("empty", ax_svs([])), ("absent", ax_svs(None)), ("two", ax_svs([dict(StartTime=100, Multiplier=2.0), dict(StartTime=100.5, Multiplier=-1.25)])), ("zero-multiplier", ax_svs([dict(StartTime=0, Multiplier=0.0), dict(StartTime=700, Multiplier=0)]))]),
     ("objects", [("holds_only", ax_objects("holds_only")), ("none", ax_objects("none")), ("two_holds", ax_objects("two_holds"))]),
     ("title", [(s or "<empty>", ax_text("Title", s)) for s in STRINGS]),
     ("artist", [(s or "<empty>", ax_text("Artist", s)) for s in ("a: b", "yes", "日本語")]),
